@@ -228,6 +228,21 @@ CLAIMED = {
     note="The specification is written from knowledge of the Arm ARM, which is not in the sandbox (no second source). CONSTRAINED "
          "UNPREDICTABLE encodings and faulting accesses are excluded and counted. Classes listed under (C) in reports/C03.md are unproved.",
     technique="Lean 4 mirror of the lifter + class theorems over all words, addresses and states; executable differential"),
+ "C01": dict(
+    category="translation_validation",
+    text="Four-way differential per (encoding, state): falcon's executor on the lifted IL, the Lean IL semantics on the dumped IL, a Lean "
+         "x86 specification written from the SDM (both modes, on capstone's normalised operand description), and for amd64 the HOST CPU "
+         "single-stepping the same bytes from the same state (signal-frame context switch with the trap flag). Template sweep of every "
+         "accepted mnemonic x prefixes x 14 ModRM/SIB shapes. Machine-checked theorems that the lifter's shared helpers equal the SDM for "
+         "all values at 8/16/32/64 bits and denote this in IL in every state: flag formulas of add/adc/sub/sbb/inc/dec/neg, shl/shr/sar "
+         "CF and results, cc_condition for all 16 codes, sub-register get/set including high-byte registers. A Lean mirror reproduces "
+         "falcon's IL syntactically for the reg,reg class of mov/add/sub/cmp/and/or/xor.",
+    design_ref="DESIGN.md §6 C01",
+    note="No instruction-level lift_correct theorem and no universality over encodings. 32-bit mode has no silicon oracle (Lean spec "
+         "only). fs/gs forms have no silicon comparison. PF/AF are outside the property. 66-prefixed near branches are not generated "
+         "(Intel and AMD differ). The fixed-width bit-vector theorems use bv_decide and therefore depend on its _native.bv_decide.ax_* "
+         "axioms (listed per theorem in the evidence).",
+    technique="differential testing against an executable Lean ISA specification validated on silicon + Lean proofs of the lifter's helpers"),
 }
 
 checks = []
